@@ -12,5 +12,6 @@ INVARIANT InvConfinedAlways
 INVARIANT InvNames
 INVARIANT InvSizeReject
 INVARIANT InvSizeBound
+INVARIANT InvNoOversizeBody
 INVARIANT InvRun
 CHECK_DEADLOCK FALSE
